@@ -335,6 +335,8 @@ class Body:
                     return ("place", base[1] + p[2:])
                 if base[0] in ("call", "callop") and len(p) == 2:
                     return ("deref", base)
+                if base[0] == "place" and base[1] != [p[0]]:
+                    return ("place", base[1] + p[1:])
             return ("place", p)
         l = p[0]
         if depth <= 0:
